@@ -11,7 +11,7 @@ from ..build_inputs import build_input, Edge
 from ..file_types import *
 from ..iterutils import first, flatten, iterate, unlistify
 from ..objutils import convert_each, convert_one
-from ..path import Path
+from ..path import Path, Root
 from ..shell import posix as pshell
 
 build_input('compile_options')(lambda: defaultdict(list))
@@ -25,6 +25,10 @@ class BaseCompile(Edge):
         build = context.build
         if name is None:
             name = self.compiler.default_name(self.file, self)
+            if isinstance(name, str) and Path(name).root != Root.builddir:
+                # The source was named by an absolute path: don't put the
+                # output (and its depfile) next to it, outside the build dir.
+                name = Path(name).basename()
             if directory:
                 name = within_directory(Path(name), directory).suffix
         else:
